@@ -3,7 +3,7 @@
    skfem.quadrature.get_quadrature (Gen.C08_All, Gen.C08_Data_...), the soundness of the Z checker and
    the tensor theorems are in Proofs.C08_RulesProofs / Proofs.C08_TensorProofs. *)
 From Coq Require Import ZArith List QArith Qabs.
-Require Import Model.C08_Rules Proofs.C08_RulesProofs Proofs.C08_TensorProofs Gen.C08_All.
+Require Import Model.C08_Rules Proofs.C08_RulesProofs Proofs.C08_TensorProofs Proofs.C08_FastProofs Gen.C08_All.
 Import ListNotations.
 
 (* THE PROPERTY (finite, bound stated: orders -2 .. nmax c).  For every reference cell c and every
@@ -28,6 +28,14 @@ Theorem C08_rules_deliver_degree :
     end.
 Proof. exact all_rules_ok. Qed.
 Print Assumptions C08_rules_deliver_degree.
+
+(* in particular the weights of every returned rule sum to the measure of the reference cell
+   (1, 1, 1/2, 1, 1/6, 1, 1/2 for point, segment, triangle, square, tetrahedron, cube, prism) *)
+Theorem C08_weights_sum_to_measure :
+  forall (c : cellid) (n : Z) (r : drule), lookup table c n = Some (Rule r) -> excluded_b excluded c n = false ->
+  Qabs (qweight_sum (toQ r) - measureQ (cshape c)) <= 1 # (2 ^ 45).
+Proof. exact (table_weights table excluded tol45 table_ok). Qed.
+Print Assumptions C08_weights_sum_to_measure.
 
 (* the orders listed in [raising] (printed in the evidence) are exactly reported as Raises *)
 Theorem C08_raising_orders :
@@ -70,11 +78,16 @@ Theorem C08_tensor_of_verified_factors :
 Proof. exact tensor_close_ok. Qed.
 Print Assumptions C08_tensor_of_verified_factors.
 
-(* the boolean decision procedure run by vm_compute on every dumped rule is sound for the statement over Q *)
+(* the boolean decision procedures run by vm_compute on every dumped rule (exact integer sums; the fast one with
+   outward-rounded fixed-point powers, working precision Bp) are sound for the statement over Q *)
 Theorem C08_checker_sound :
   forall s r n tol, check_rule s r n tol = true -> rule_okQ s (toQ r) n tol.
 Proof. exact check_rule_sound. Qed.
 Print Assumptions C08_checker_sound.
+Theorem C08_fast_checker_sound :
+  forall s r n tol Bp, icheck_rule s r n tol Bp = true -> rule_okQ s (toQ r) n tol.
+Proof. exact icheck_rule_sound. Qed.
+Print Assumptions C08_fast_checker_sound.
 
 (* ---- non-vacuity *)
 (* reference values: triangle integral of x*y is 1/24, tetrahedron measure 1/6, prism measure 1/2 *)
